@@ -225,7 +225,7 @@ type pairOps struct {
 	conv          func(src, dst Buf) int
 	writeStripedP func(src Striped, dst Buf) int
 	readStripedP  func(src Buf, dst Striped) int
-	block         func(n int) func(in, out []uint64)
+	block         func(n, ch int) func(in, out []uint64)
 }
 
 var (
@@ -309,16 +309,20 @@ func regConv[S, D signal.SignalTypes](s, d int, name string, f func(*signal.Buff
 	p.name = name
 	p.conv = func(src, dst Buf) int { return f(src.(bufW[S]).b, dst.(bufW[D]).b) }
 	sk, dk := Types[s].Kind, Types[d].Kind
-	p.block = func(n int) func(in, out []uint64) {
-		sb := signal.Alloc[S](signal.Allocator{Channels: 1, Length: n, Capacity: n})
-		db := signal.Alloc[D](signal.Allocator{Channels: 1, Length: n, Capacity: n})
+	p.block = func(n, ch int) func(in, out []uint64) {
+		frames := (n + ch - 1) / ch
+		sb := signal.Alloc[S](signal.Allocator{Channels: ch, Length: frames, Capacity: frames})
+		db := signal.Alloc[D](signal.Allocator{Channels: ch, Length: frames, Capacity: frames})
+		sentinel := fromVal[D](Garbage(d))
 		return func(in, out []uint64) {
 			s2, d2 := sb, db
-			if len(in) < n {
-				s2, d2 = sb.Slice(0, len(in)), db.Slice(0, len(in))
+			if fr := (len(in) + ch - 1) / ch; fr < frames {
+				s2, d2 = sb.Slice(0, fr), db.Slice(0, fr)
 			}
 			for i, r := range in {
 				s2.SetSample(i, fromVal[S](Val{sk, r}))
+				// the destination starts out holding garbage: a conversion must overwrite it
+				d2.SetSample(i, sentinel)
 			}
 			f(s2, d2)
 			for i := range in {
@@ -331,7 +335,10 @@ func regConv[S, D signal.SignalTypes](s, d int, name string, f func(*signal.Buff
 // ConvBlock returns a function that converts up to n raw sample values (Val.B of the
 // source kind) through the real conversion function for (s, d), via real one-channel
 // buffers, and stores the raw results (Val.B of the destination kind) in out.
-func ConvBlock(s, d, n int) func(in, out []uint64) { return pairs[s][d].block(n) }
+func ConvBlock(s, d, n int) func(in, out []uint64) { return pairs[s][d].block(n, 1) }
+
+// ConvBlockCh is ConvBlock over buffers with ch channels (the n samples are interleaved).
+func ConvBlockCh(s, d, n, ch int) func(in, out []uint64) { return pairs[s][d].block(n, ch) }
 
 // Type ids of the built-in types.
 const (
@@ -482,4 +489,17 @@ func Tok(t int, n int64) Val {
 	default:
 		return F(float64(n))
 	}
+}
+
+// Garbage is a recognisable non-trivial value of type t (0x55.. pattern; 1/3 for floats)
+// that destinations are pre-filled with: narrowing it does not give 0.
+func Garbage(t int) Val {
+	ty := Types[t]
+	switch ty.Kind {
+	case Signed:
+		return I(int64(0x5555555555555555 >> uint(64-ty.Bits)))
+	case Unsigned:
+		return U(uint64(0x5555555555555555) >> uint(64-ty.Bits))
+	}
+	return F(1.0 / 3)
 }
